@@ -74,6 +74,9 @@ pub fn validate_as(e: &Expression, eref: &Expression, opts: &RunOptions, mk_reco
         }
         let run = match run_policy(&compiled.text, compiled.io_map.as_ref(), recs.clone()) {
             Ok(r) => r,
+            Err(pe) if pe.is_model_limit() => {
+                return Tv::Bad { kind: "model-lacks".into(), what: format!("{}", pe), detail: J::Null };
+            }
             Err(pe) => {
                 let kind = match &pe {
                     PolicyError::Read(_) => "read-error",
@@ -104,7 +107,14 @@ pub fn validate_as(e: &Expression, eref: &Expression, opts: &RunOptions, mk_reco
         for (now, mode) in (t0..=t1).flat_map(|n| modes.iter().map(move |m| (n, *m))) {
             let mut bad = None;
             for (i, r) in recs.iter().enumerate() {
-                let want = reference_mode(eref, r, now, mode).expect("defined above");
+                let want = match reference_mode(eref, r, now, mode) {
+                    Ok(w) => w,
+                    Err(_) => {
+                        // under this reading the record reaches an undefined leaf: the reading does not apply
+                        bad = Some(("reading-not-applicable".to_string(), String::new(), J::Null));
+                        break;
+                    }
+                };
                 if want != run.outcomes[i] {
                     let kind = if want.truth != run.outcomes[i].truth {
                         "truth"
@@ -134,7 +144,7 @@ pub fn validate_as(e: &Expression, eref: &Expression, opts: &RunOptions, mk_reco
                 }
                 Some(b) => {
                     // report the disagreement with the default reading
-                    if last_bad.is_none() || mode == RefMode::default() {
+                    if b.0 != "reading-not-applicable" && (last_bad.is_none() || mode == RefMode::default()) {
                         last_bad = Some(b);
                     }
                 }
@@ -143,7 +153,10 @@ pub fn validate_as(e: &Expression, eref: &Expression, opts: &RunOptions, mk_reco
         if t0 != t1 {
             continue; // clock ticked during compile: try again rather than guess
         }
-        let (kind, what, detail) = last_bad.unwrap();
+        let (kind, what, detail) = match last_bad {
+            Some(b) => b,
+            None => return Tv::Skip("no reading applies to every record".into()),
+        };
         return Tv::Bad { kind, what, detail };
     }
     Tv::Skip("clock kept ticking during compile".into())
